@@ -11,6 +11,7 @@ from dataclasses import dataclass, field
 from typing import *
 from enum import Enum
 from uuid import UUID
+from apischema import schema
 
 @dataclass
 class Point:
@@ -20,6 +21,14 @@ class Point:
 class Color(Enum):
     R = "r"
     G = "g"
+
+# constraints given from outside the named type (an annotation, a field): they hold on JSON data whatever passes through
+CUUID = Annotated[UUID, schema(pattern="^0000")]
+
+@dataclass
+class CHolder:
+    u: UUID = field(metadata=schema(pattern="^0000"))
+    n: int = 0
 
 @dataclass
 class Holder:
@@ -35,7 +44,7 @@ NAMED = ["Point", "Color", "UUID", "Holder"]
 
 def gen_spec(r, depth):
     k = r.random()
-    if depth <= 0 or k < 0.3: return (r.choice(["Point", "Point", "Color", "UUID", "Holder", "int", "str"]),)
+    if depth <= 0 or k < 0.3: return (r.choice(["Point", "Point", "Color", "UUID", "Holder", "int", "str", "CUUID", "CHolder"]),)
     if k < 0.45: return ("opt", gen_spec(r, depth - 1))
     if k < 0.7: return ("union", r.choice(UNIONS))
     if k < 0.8: return ("list", gen_spec(r, depth - 1))
@@ -71,6 +80,12 @@ class Maker:
         elif k == "UUID":
             import uuid
             j = r.choice([U1, U2]); inst = uuid.UUID(j)
+        elif k == "CUUID":
+            import uuid
+            j = r.choice([U1, U2, U2]); return j, j, uuid.UUID(j)          # (U1 violates the pattern: rejected with and without the option)
+        elif k == "CHolder":
+            import uuid
+            j = {"u": r.choice([U1, U2, U2]), "n": 1}; return j, dict(j), ns["CHolder"](uuid.UUID(j["u"]), 1)
         elif k == "Holder":
             pj, pm, pv = self.leaf("Point"); n = r.choice([0, 2])
             j = {"p": pj, "n": n}; m = {"p": pm, "n": n}; inst = ns["Holder"](pv, None, ns["Color"].R, n)
